@@ -11,6 +11,9 @@ use futures_util::io::{AsyncRead, AsyncWrite};
 
 use crate::rng::Rng;
 
+/// No workload writes anywhere near this much: reaching it means a write loop that never ends.
+const OUTBOX_CAP: usize = 16 << 20;
+
 #[derive(Clone, Copy, Debug, PartialEq, Eq)]
 pub enum WriteFault {
     Err(io::ErrorKind),
@@ -327,6 +330,7 @@ impl AsyncWrite for Writer {
             Err(n) => {
                 let mut p = self.0.lock().unwrap_or_else(std::sync::PoisonError::into_inner);
                 p.outbox.extend_from_slice(&buf[..n]);
+                assert!(p.outbox.len() < OUTBOX_CAP, "spin: more than 16 MiB were written to the transport (no scripted connection writes a fifth of that)");
                 if p.write_fault_fired_at.is_some() {
                     p.bytes_after_write_fault += n;
                 }
@@ -346,6 +350,7 @@ impl AsyncWrite for Writer {
                 for b in bufs {
                     let k = left.min(b.len());
                     p.outbox.extend_from_slice(&b[..k]);
+                    assert!(p.outbox.len() < OUTBOX_CAP, "spin: more than 16 MiB were written to the transport (no scripted connection writes a fifth of that)");
                     left -= k;
                     if left == 0 {
                         break;
